@@ -268,6 +268,24 @@ def reader_complete(ctx, reach):
                 marks = {C.stmt_node(ctx, fn, x) for x in appends + recurses}
                 covered = g.must_pass(body_start[0], head, marks) if marks else False
             ok = not bad and covered
+            # the v1 list is the payload layout: its entries must be visited in the order the metafile gives them
+            it = loop.iter
+            inner = it
+            while isinstance(inner, ast.Call) and isinstance(inner.func, ast.Name) and inner.func.id in ("enumerate", "list", "tuple", "iter") and inner.args:
+                inner = inner.args[0]
+            mentions_files = any(isinstance(x, ast.Subscript) and const_str(x.slice) == "files" for x in ast.walk(it)) or \
+                any(isinstance(x, ast.Call) and isinstance(x.func, ast.Attribute) and x.func.attr == "get" and x.args and const_str(x.args[0]) == "files" for x in ast.walk(it))
+            if mentions_files:
+                plain = (isinstance(inner, ast.Subscript) and const_str(inner.slice) == "files") or \
+                    (isinstance(inner, ast.Call) and isinstance(inner.func, ast.Attribute) and inner.func.attr == "get" and inner.args and const_str(inner.args[0]) == "files")
+                reorder = [x for x in ast.walk(it) if isinstance(x, ast.Call) and isinstance(x.func, ast.Name) and x.func.id in ("sorted", "reversed", "filter", "set", "frozenset")] + \
+                    [x for x in ast.walk(it) if isinstance(x, ast.Subscript) and isinstance(x.slice, ast.Slice)]
+                if reorder:
+                    ctx.violated("C13.4", fn, "the v1 file list is visited as `%s`, not in the metafile's own order: the list order IS the payload layout, so every piece-to-file mapping after the first displaced entry is wrong" % norm(it), loop)
+                elif plain:
+                    ctx.holds("C13.4", fn, "the v1 file list is visited in the metafile's order", loop)
+                else:
+                    ctx.undecided("C13.4", fn, "the v1 file list is visited through `%s`; whether the order is kept is not decided" % norm(it), loop)
             ctx.decide("C13.4", fn, ok, "reader loop `for %s in %s` records or descends into every entry" % (norm(loop.target), norm(loop.iter)),
                        "reader loop `for %s in %s` can skip an entry (%s): that file is never searched for" % (norm(loop.target), norm(loop.iter), "early exit" if bad else "a path through the body records nothing"), loop.iter)
     ctx.floor("reader loops", 2, n)
@@ -312,6 +330,108 @@ def index_complete(ctx):
     ctx.floor("index merge loops", 2, n)
 
 
+def index_not_pruned(ctx):
+    """C13.5: once built, the search index keeps every candidate until the matchers look at it: nothing removes, filters or
+    replaces per-name candidate lists (a size pre-filter keyed by file name keeps one size per name and throws away the
+    intact copies of every other same-named file)."""
+    from tfsa.pointsto import PointsTo
+    from .postassembly import filtered_rebuild
+    pt = getattr(ctx, "_pt_cache", None) or PointsTo(ctx.prog, ctx.res, ctx.cg)
+    ctx._pt_cache = pt
+    idx = ctx.prog.functions.get("torrentfile.rebuild:_index_contents")
+    if idx is None:
+        ctx.undecided("C13.5", None, "anchor vanished: _index_contents")
+        return
+    roots = set()
+    for f in ctx.prog.functions.values():
+        for n in own_nodes(f.node):
+            if isinstance(n, ast.Call) and any(t is idx for t in C.targets_of(ctx, f, n)):
+                roots |= pt.pts(n, f)
+    if not roots:
+        ctx.undecided("C13.5", idx, "the search index object could not be located")
+        return
+    objs = set(roots)
+    for o in list(roots):
+        objs |= pt.getfield(o, None)
+    builders = {f for f in ctx.prog.functions.values() if f.name.startswith("_index_content")}
+    n = 0
+    for ins, hit in pt.list_edits_of(objs):
+        if ins.fn in builders:
+            continue
+        n += 1
+        ctx.violated("C13.5", ins.fn, "`%s` %s candidates of the search index before the matchers have seen them" % (norm(ins.node)[:70], "removes" if ins.how == "remove" else "reorders"), ins.node)
+    for ins, hit in pt.insertions_into(objs):
+        if ins.fn is None or ins.fn in builders:
+            continue
+        n += 1
+        if ins.how == "del":
+            ctx.violated("C13.5", ins.fn, "`%s` deletes candidates from the search index" % norm(ins.node)[:70], ins.node)
+        elif ins.how == "store" and ins.value is not None:
+            why = filtered_rebuild(ctx, ins.value, ins.fn)
+            if why:
+                ctx.violated("C13.5", ins.fn, "the candidate list is replaced by %s: candidates are dropped before any of their bytes were compared - with a criterion kept per file *name*, "
+                             "the intact copies of all but one same-named file are lost" % why, ins.node)
+            else:
+                ctx.undecided("C13.5", ins.fn, "`%s` rewrites part of the search index" % norm(ins.node)[:70], ins.node)
+        else:
+            ctx.undecided("C13.5", ins.fn, "`%s` modifies the search index after it was built" % norm(ins.node)[:70], ins.node)
+    if n == 0:
+        ctx.holds("C13.5", idx, "nothing outside the index builders removes, filters or replaces candidates of the search index (%d objects)" % len(objs), "index :: pruned")
+
+
+def every_piece_verified(ctx):
+    """C13.7: in the v1 matcher every piece of the metafile is compared before the file it belongs to counts as placed.
+
+    The candidate of a file is copied when the *first* piece touching it verifies.  If later pieces of that file are then
+    skipped, a same-named, same-sized file that shares only its beginning with the original (a partial download, an older
+    revision) is placed although an intact copy is available, and the result does not verify."""
+    fn = ctx.prog.functions.get("torrentfile.rebuild:Metadata._match_v1")
+    if fn is None:
+        ctx.undecided("C13.7", None, "anchor vanished: Metadata._match_v1")
+        return
+    g = C.cfg_of(fn)
+    loops = [n for n in own_nodes(fn.node) if isinstance(n, ast.For) and any(isinstance(c, ast.Call) and isinstance(c.func, ast.Attribute) and c.func.attr == "find_matches" for c in ast.walk(n))]
+    if len(loops) != 1:
+        ctx.undecided("C13.7", fn, "the loop over piece nodes was not found")
+        return
+    loop = loops[0]
+    head = g.of[loop]
+    start = C.succ_by_label(head, "iter")[0]
+    calls = {C.stmt_node(ctx, fn, c) for c in ast.walk(loop) if isinstance(c, ast.Call) and isinstance(c.func, ast.Attribute) and c.func.attr == "find_matches"}
+    ok = g.must_pass(start, head, calls)
+    skip = [x for st in loop.body for x in ast.walk(st) if isinstance(x, ast.Continue)]
+    ctx.decide("C13.7", fn, ok, "every piece node is handed to the verifier",
+               "a piece is skipped without being compared (`%s`): once the first piece of a file verified and its candidate was copied, the remaining pieces of that file are "
+               "never checked - a decoy that shares the first piece with the original is placed even though an intact copy exists" % (
+                   norm(ctx.prog.parent.get(skip[0]).test)[:80] if skip and isinstance(ctx.prog.parent.get(skip[0]), ast.If) else "early continue"),
+               skip[0] if skip else loop)
+
+
+def padding_entries_recognised(ctx):
+    """C13.8: what the creators write into a v1 file entry the rebuild reader must understand.  Aligned v1 torrents (and
+    hybrids read as v1) list padding entries marked attr='p'; a reader that never looks at 'attr' searches the disk for a
+    file called like the padding entry and, not finding it, fails every piece that contains padding."""
+    ex = ctx.prog.functions.get("torrentfile.rebuild:Metadata.extract")
+    if ex is None:
+        ctx.undecided("C13.8", None, "anchor vanished: Metadata.extract")
+        return
+    writers = []
+    for f in ctx.prog.functions.values():
+        if f.module.name not in ("torrentfile.torrent", "torrentfile.hasher"):
+            continue
+        for d in own_nodes(f.node):
+            if isinstance(d, ast.Dict) and any(const_str(k) == "attr" for k in d.keys if k is not None) and any(const_str(k) == "path" for k in d.keys if k is not None):
+                writers.append((f, d))
+    if not writers:
+        ctx.holds("C13.8", ex, "no creator writes padding entries", "padding entries", nontrivial=False)
+        return
+    reads = [n for f in ctx.prog.functions.values() if f.module.name == "torrentfile.rebuild" for n in own_nodes(f.node)
+             if (isinstance(n, ast.Constant) and n.value == "attr")]
+    ctx.decide("C13.8", ex, bool(reads), "the rebuild reader looks at the 'attr' key of v1 entries",
+               "the creators mark padding entries with attr='p' (%s) but nothing in rebuild reads 'attr': a padding entry is treated as a real file that must be found on disk, "
+               "so no piece that contains padding ever verifies and the files around it are not rebuilt" % writers[0][0].qual.split(":")[-1], "padding entries")
+
+
 def candidates_independent(ctx, flow, reach):
     """C13.6: trying one candidate must not change the state the next candidate is verified with."""
     n = 0
@@ -329,6 +449,11 @@ def candidates_independent(ctx, flow, reach):
                 {x.id for x in ast.walk(loop.target) if isinstance(x, ast.Name)}
             shared = outer - inner_defs
             bad = None
+            alias_of = {}
+            for st in loop.body:
+                for x in ast.walk(st):
+                    if isinstance(x, ast.Assign) and len(x.targets) == 1 and isinstance(x.targets[0], ast.Name) and isinstance(x.value, ast.Name) and x.value.id in shared:
+                        alias_of[x.targets[0].id] = x.value
             for st in loop.body:
                 for x in ast.walk(st):
                     if isinstance(x, ast.Call) and isinstance(x.func, ast.Attribute) and isinstance(x.func.value, ast.Name) and x.func.value.id in shared \
@@ -336,6 +461,15 @@ def candidates_independent(ctx, flow, reach):
                         bad = x
                     if isinstance(x, ast.AugAssign) and isinstance(x.target, ast.Name) and x.target.id in shared:
                         bad = x
+                    # `tmp = shared; tmp += ...` : in place when the shared value is a mutable buffer (bytearray / list)
+                    if isinstance(x, (ast.AugAssign, ast.Call)):
+                        tgt = x.target if isinstance(x, ast.AugAssign) else (x.func.value if isinstance(x.func, ast.Attribute) and x.func.attr in ("extend", "append", "update", "insert", "clear", "pop") else None)
+                        if isinstance(tgt, ast.Name) and tgt.id in alias_of:
+                            src = alias_of[tgt.id]
+                            t = flow.term(src, fn)
+                            mut = any(y[0] in ("list", "dict") or (y[0] == "ext" and y[1] in ("builtins.bytearray", "builtins.list", "builtins.dict", "builtins.set")) for y in t)
+                            if mut:
+                                bad = x
             if bad is not None:
                 ctx.violated("C13.6", fn, "a value shared by all iterations of the candidate loop is changed while a candidate is tried (%s): a rejected candidate contaminates the verification of the next one, so an intact copy listed after a decoy never verifies" % norm(bad)[:60], bad)
             else:
@@ -355,10 +489,18 @@ def run(ctx):
     reader_tolerates(ctx, full)
     reader_complete(ctx, full)
     index_complete(ctx)
+    index_not_pruned(ctx)
+    every_piece_verified(ctx)
+    padding_entries_recognised(ctx)
     candidates_independent(ctx, flow, full)
 
 
 MUTANTS = [
+    {"name": "index-prefiltered-by-name-size", "file": "torrentfile/rebuild.py", "expect": "violated", "rule": "C13.5", "canary": True,
+     "what": "candidates of the wrong size (one size per file name) are dropped right after indexing",
+     "edits": [("        self.filemap = _index_contents(self.contents, filenames)\n", "        self.filemap = _index_contents(self.contents, filenames)\n        sizes = {f[\"filename\"]: f[\"length\"] for m_ in self.metafiles for f in m_.files}\n        for name_, found in self.filemap.items():\n            found[:] = [c for c in found if c[1] == sizes.get(name_)]\n")]},
+    {"name": "files-visited-sorted", "file": "torrentfile/rebuild.py", "expect": "violated", "rule": "C13.4", "canary": True,
+     "what": "the v1 file list is walked in sorted order", "edits": [("            for f in info[\"files\"]:", "            for f in sorted(info[\"files\"], key=lambda e: e[\"path\"]):")]},
     {"name": "G9-regress-return-after-first-candidate", "file": "torrentfile/rebuild.py", "expect": "violated", "rule": "C13.1", "canary": True, "quick": True,
      "what": "pinned-tree defect G9: return val as last statement of the loop body", "edits": [("                copypath(loc, dest_path)\n                return val\n", "                copypath(loc, dest_path)\n            return val\n")]},
     {"name": "v2-break-after-first-candidate", "file": "torrentfile/rebuild.py", "expect": "violated", "rule": "C13.1", "canary": True,
@@ -384,7 +526,7 @@ QUICK_CANARIES = True
 CLAIM = {
     "text": "Partial: decides four necessary conditions of completeness on every path (the candidate search does not stop on an unverified candidate; counted implies copied; the reader "
             "tolerates the keys creators omit and still places such entries; the reader visits every entry). It does NOT decide the piece-to-file mapping or hash equality, so a pass is "
-            "not a proof that rebuild completes - only that these structural ways of failing are absent. Defects G11-G13 (arithmetic / bookkeeping, repaired) are outside its reach.",
+            "not a proof that rebuild completes - only that these structural ways of failing are absent. Defects G11-G13 (arithmetic / bookkeeping, repaired) are outside its reach. C13.4 also requires the v1 file list to be visited in the metafile's order; C13.5 that nothing prunes the search index after it was built; C13.7 that every piece is handed to the verifier (known finding G25 on this tree); C13.8 that the rebuild reader recognises the padding entries the creators write (known finding G27).",
     "note": "Trusted: the same call-graph and origin-term machinery as C14. Honest scope: behaviour of _map_pieces and 100% verification of the rebuilt tree are run-time properties.",
     "technique": "CFG control dependence on verification atoms (origin terms), dominance of the copy over the counter, reader/writer key agreement, must-pass-through in reader loops",
     "design_ref": "DESIGN.md section 4, C13",
